@@ -258,3 +258,157 @@ func (p *P) Implementations(m *types.Func) []*ssa.Function {
 	}
 	return res
 }
+
+// ---------------------------------------------------------------------------
+// who-may-call through private helpers
+
+// funcRefs: for every module function, the functions that mention it as a value
+// (method value / function value / closure creation).  Built once.
+func (p *P) funcRefs() map[*ssa.Function][]*ssa.Function {
+	if p.refs != nil {
+		return p.refs
+	}
+	refs := map[*ssa.Function][]*ssa.Function{}
+	add := func(target, user *ssa.Function) {
+		for _, u := range refs[target] {
+			if u == user {
+				return
+			}
+		}
+		refs[target] = append(refs[target], user)
+	}
+	for _, pk := range p.Mod {
+		if pk.SSA == nil {
+			continue
+		}
+		for fn := range ssautilAll(pk.SSA) {
+			for _, b := range fn.Blocks {
+				for _, in := range b.Instrs {
+					for _, op := range in.Operands(nil) {
+						if op == nil || *op == nil {
+							continue
+						}
+						switch x := (*op).(type) {
+						case *ssa.Function:
+							if ci, isCall := in.(ssa.CallInstruction); isCall && ci.Common().Value == *op {
+								continue // a plain static call, not a value use
+							}
+							add(x, fn)
+						case *ssa.MakeClosure:
+							if f, ok := x.Fn.(*ssa.Function); ok {
+								add(f, fn)
+							}
+						}
+					}
+					if mc, ok := in.(*ssa.MakeClosure); ok {
+						if f, isF := mc.Fn.(*ssa.Function); isF {
+							add(f, fn)
+						}
+					}
+				}
+			}
+		}
+	}
+	p.refs = refs
+	return refs
+}
+
+func ssautilAll(pkg *ssa.Package) map[*ssa.Function]bool {
+	out := map[*ssa.Function]bool{}
+	var addFn func(f *ssa.Function)
+	addFn = func(f *ssa.Function) {
+		if f == nil || out[f] {
+			return
+		}
+		out[f] = true
+		for _, a := range f.AnonFuncs {
+			addFn(a)
+		}
+	}
+	for _, m := range pkg.Members {
+		switch x := m.(type) {
+		case *ssa.Function:
+			addFn(x)
+		case *ssa.Type:
+			for _, t := range []types.Type{x.Type(), types.NewPointer(x.Type())} {
+				ms := pkg.Prog.MethodSets.MethodSet(t)
+				for i := 0; i < ms.Len(); i++ {
+					addFn(pkg.Prog.MethodValue(ms.At(i)))
+				}
+			}
+		}
+	}
+	return out
+}
+
+// EffectiveCallers returns the callers of fn with private helpers made
+// transparent: a caller that is not accepted by ok and is a private helper — an
+// anonymous closure, a synthetic wrapper (bound method value), or an unexported
+// function of the module — is replaced by ITS users (static callers, the
+// functions that create the closure / take the method value), recursively.
+// Extracting a few lines into an unexported helper, or passing a method value
+// instead of a closure, therefore does not change who is reported.
+func (p *P) EffectiveCallers(fn *ssa.Function, ok func(*ssa.Function) bool) []*ssa.Function {
+	cg := p.CG()
+	refs := p.funcRefs()
+	seen := map[*ssa.Function]bool{}
+	res := map[*ssa.Function]bool{}
+	var visit func(f *ssa.Function, depth int)
+	isPrivate := func(x *ssa.Function) bool {
+		if x.Parent() != nil || x.Synthetic != "" {
+			return true
+		}
+		if x.Pkg == nil || x.Pkg.Pkg == nil || len(x.Name()) == 0 {
+			return false
+		}
+		c := x.Name()[0]
+		return c >= 'a' && c <= 'z' || c == '_'
+	}
+	users := func(x *ssa.Function) []*ssa.Function {
+		var out []*ssa.Function
+		if x.Parent() != nil {
+			return []*ssa.Function{x.Parent()}
+		}
+		if len(refs[x]) > 0 && x.Synthetic != "" {
+			return refs[x] // a bound-method wrapper: who takes the method value
+		}
+		for _, e := range cg.In[x] {
+			if e.Site != nil && e.Site.Common().StaticCallee() == x {
+				out = append(out, e.Caller)
+			}
+		}
+		out = append(out, refs[x]...)
+		return out
+	}
+	var resolve func(x *ssa.Function, depth int)
+	resolve = func(x *ssa.Function, depth int) {
+		if seen[x] {
+			return
+		}
+		seen[x] = true
+		if ok(x) || !isPrivate(x) || depth >= 5 {
+			res[x] = true
+			return
+		}
+		us := users(x)
+		if len(us) == 0 {
+			res[x] = true
+			return
+		}
+		for _, u := range us {
+			resolve(u, depth+1)
+		}
+	}
+	visit = func(f *ssa.Function, depth int) {
+		for _, caller := range cg.Callers(f) {
+			resolve(caller, 0)
+		}
+	}
+	visit(fn, 0)
+	out := make([]*ssa.Function, 0, len(res))
+	for f := range res {
+		out = append(out, f)
+	}
+	sort.Slice(out, func(i, j int) bool { return out[i].String() < out[j].String() })
+	return out
+}
